@@ -500,6 +500,8 @@ class DatasetProcessor:
         if self.args.read_assignments:
             saves_file = self.args.read_assignments[0]
             logger.info('Using read assignments from {}*'.format(saves_file))
+            # the count tables report the number of unaligned reads; a restarted run has no BAM file to count them from
+            self.alignment_stat_counter.add(AlignmentType.unaligned, self.load_unaligned_reads(saves_file))
         else:
             self.collect_reads(sample)
             saves_file = sample.out_raw_file
@@ -613,6 +615,8 @@ class DatasetProcessor:
         write_int(total_assignments, info_dumper)
         write_int(polya_assignments, info_dumper)
         write_list(list(all_read_groups), info_dumper, write_string)
+        # kept for runs restarted with --read_assignments (readers of the older format stop before this field)
+        write_int(self.alignment_stat_counter.stats_dict[AlignmentType.unaligned], info_dumper)
         info_dumper.close()
         open(lock_file, "w").close()
 
@@ -766,6 +770,16 @@ class DatasetProcessor:
         all_read_groups = set(read_list(info_loader, read_string))
         info_loader.close()
         return total_assignments, polya_assignments, all_read_groups
+
+    def load_unaligned_reads(self, dump_filename):
+        info_loader = open(dump_filename + "_info", "rb")
+        read_int(info_loader)
+        read_int(info_loader)
+        read_list(info_loader, read_string)
+        # files saved before the count was stored end here: read_int gives 0 at the end of the file
+        unaligned = read_int(info_loader)
+        info_loader.close()
+        return unaligned
 
     def merge_assignments(self, sample, aggregator, chr_ids):
         if self.args.genedb:
